@@ -131,6 +131,46 @@ theorem frame_urlencBodyCallback (cfg : Cfg) (uid : Nat) (data : Option Bytes) (
       | some d => exact frame_setTx _ _
       | none => simp only; split <;> first | exact FrameDirs.refl c | exact frame_setTx _ _
 
+theorem frame_mpartFileEvents (uid : Nat) (evs : List (Nat × Option Bytes)) (c : Conn) :
+    FrameDirs c (mpartFileEvents uid evs c) := by
+  induction evs generalizing c with
+  | nil => exact FrameDirs.refl c
+  | cons e rest ih =>
+    obtain ⟨i, d⟩ := e
+    unfold mpartFileEvents
+    exact (frame_runCallback ..).trans (ih _)
+
+theorem frame_mpartBodyCallback (uid : Nat) (data : Option Bytes) (c : Conn) :
+    FrameDirs c (mpartBodyCallback uid data c).1 := by
+  unfold mpartBodyCallback
+  cases c.findTx uid with
+  | none => exact FrameDirs.refl c
+  | some t =>
+    simp only
+    cases t.mpart with
+    | none => exact FrameDirs.refl c
+    | some mp =>
+      simp only
+      split
+      · exact FrameDirs.refl c
+      · cases data with
+        | some d => exact (frame_setTx _ c).trans (frame_mpartFileEvents ..)
+        | none => exact (frame_setTx _ c).trans (frame_mpartFileEvents ..)
+
+theorem frame_runTxReqBodyHooks (cfg : Cfg) (uid : Nat) (data : Option Bytes) (isLast : Bool) (g : Nat) (hs : List TxHook) (c : Conn) :
+    FrameDirs c (runTxReqBodyHooks cfg uid data isLast g hs c).1 := by
+  induction hs generalizing c with
+  | nil => exact FrameDirs.refl c
+  | cons h rest ih =>
+    unfold runTxReqBodyHooks
+    apply frame_andThen
+    · cases h with
+      | user => exact frame_runCallback ..
+      | urlenc => exact frame_urlencBodyCallback ..
+      | mpart => exact frame_mpartBodyCallback ..
+    · intro c'
+      exact ih c'
+
 theorem frame_reqRunHookBodyData (cfg : Cfg) (data : Option Bytes) (g : Nat) (c : Conn) :
     FrameDirs c (reqRunHookBodyData cfg data g c).1 := by
   unfold reqRunHookBodyData
@@ -141,19 +181,14 @@ theorem frame_reqRunHookBodyData (cfg : Cfg) (data : Option Bytes) (g : Nat) (c 
     | some uid =>
       simp only
       apply frame_andThen
-      · split
-        · exact frame_urlencBodyCallback ..
-        · exact FrameDirs.refl c
-      · intro c1
+      · exact frame_runTxReqBodyHooks ..
+      · intro c2
         apply frame_andThen
-        · exact frame_runCallbackN ..
-        · intro c2
-          apply frame_andThen
+        · exact frame_runCallback ..
+        · intro c3
+          split
           · exact frame_runCallback ..
-          · intro c3
-            split
-            · exact frame_runCallback ..
-            · exact FrameDirs.refl c3
+          · exact FrameDirs.refl c3
 
 theorem frame_reqProcessBodyData (cfg : Cfg) (data : Option Bytes) (g : Nat) (c : Conn) :
     FrameDirs c (reqProcessBodyData cfg data g c).1 := by
